@@ -144,7 +144,7 @@ def run(tier, seed):
         built.append('%s (%d cells)' % (name, L.n_cells))
         chunk = 2500
         for i0 in range(0, L.n_cells, chunk):
-            T.run('grid_lookup', {'lattice': lat, 'probe': {'cells': [i0, min(i0 + chunk, L.n_cells)], 'ulps': [1] if tier == 'quick' else ulps,
+            T.run('grid_lookup', {'lattice': lat, 'probe': {'cells': [i0, min(i0 + chunk, L.n_cells)], 'ulps': [1] if tier == 'quick' else ([1, 4] if L.n_cells > 50000 else ulps),
                                                             'holes': i0 == 0, 'beyond': i0 == 0}, 'each': 60},
                   key=('lookup', name, i0))
         step = 3000 if tier == 'quick' else 600
